@@ -59,7 +59,7 @@ KahanStep(e) ==
                         \cup (IF e.act.a \in {"lfold", "rfold", "lfold_plus", "rfold_plus"} /\ e.act.rep >= 1000 THEN {"C08.long_" \o e.act.a \o "." \o e.ty} ELSE {})
                         \cup (IF e.act.a \in {"add_block", "add_cycle", "lfold", "rfold"} /\ e.act.rep >= 1000 /\ DySign(regs'[e.act.r].ex) < 0 THEN {"C08.negative_sum_stream"} ELSE {})
                         \cup (IF e.act.a \in {"add_block", "add_cycle"} /\ e.act.rep >= 1000 /\ DySign(regs'[e.act.r].ab) > 0
-                                 /\ DyLt(regs'[e.act.r].ab, Dy(BigOfInt(1), IF e.ty = "f32" THEN -100 ELSE -900)) THEN {"C08.tiny_magnitude_stream." \o e.ty} ELSE {})
+                                 /\ DyLt(regs'[e.act.r].ab, Dy(BigOfInt(1), IF e.ty = "f32" THEN -90 ELSE -900)) THEN {"C08.tiny_magnitude_stream." \o e.ty} ELSE {})
                         \cup (IF e.nreg >= 8 /\ e.act.a \in {"merge", "merge_by_plus"} THEN {"C08.merge_tree"} ELSE {})
                         \* folds of registers that are each below half an ulp of the running sum
                         \cup (IF e.act.a \in {"lfold", "rfold", "lfold_plus", "rfold_plus"} /\ e.act.rep >= 1000
